@@ -3,6 +3,11 @@
 //   h_xmlfuzz fuzz <seedlist> <dict> <seed> <start> <count> [timeout_s]   run inputs start..start+count-1
 //   h_xmlfuzz dump <seedlist> <dict> <seed> <index> <outfile>             write input #index (no execution)
 //   h_xmlfuzz file <path> <api> <errsz>                                   run the bytes of one file (replay)
+//   h_xmlfuzz hang <path> <api> <errsz> <timeout_s>                       same, but when the CPU-time cap fires take 80 stack
+//                                                                         samples 50 CPU-ms apart ("S <k> <thread> <frame> ..."
+//                                                                         lines) before giving up: the deepest frame common to
+//                                                                         all samples of the busiest thread owns the loop that
+//                                                                         does not terminate
 //
 // Input #i depends only on (seedlist contents, dict contents, seed, i).  For each input:
 //   api 0: mj_parseXMLString + mj_compile (+ mj_makeData + one mj_step when small) + deletes
@@ -22,6 +27,9 @@
 #include <cstdlib>
 #include <cstring>
 #include <cxxabi.h>
+#include <dlfcn.h>
+#include <execinfo.h>
+#include <pthread.h>
 #include <exception>
 #include <map>
 #include <string>
@@ -302,6 +310,36 @@ static void on_warning(const char*) { n_warn++; }
 
 static void on_alarm(int) { char b[64]; int n = snprintf(b, sizeof b, "\nT %ld\n", (long)g_index); if (write(1, b, n)) {} _exit(4); }
 
+// 'hang' mode: stack samples of a computation that exceeded its CPU-time cap
+enum { NSAMPLE = 80, NFRAME = 48 };
+static void* g_bt[NSAMPLE][NFRAME];
+static int g_btn[NSAMPLE];
+static unsigned long g_bttid[NSAMPLE];
+static volatile int g_nsample = 0;
+static void on_alarm_sample(int) {
+  int k = g_nsample;
+  if (k < NSAMPLE) {
+    g_btn[k] = backtrace(g_bt[k], NFRAME);
+    g_bttid[k] = (unsigned long)pthread_self();
+    g_nsample = k + 1;
+  }
+  if (g_nsample < NSAMPLE) {                                    // 50 more CPU-milliseconds, then sample again
+    struct itimerval it = {{0, 0}, {0, 50000}}; setitimer(ITIMER_PROF, &it, nullptr);
+    alarm(3);                                                   // a sleeping deadlock burns no CPU time
+    return;
+  }
+  char b[600]; int n = snprintf(b, sizeof b, "\nT %ld\n", (long)g_index); if (write(1, b, n)) {}
+  for (int s = 0; s < NSAMPLE; s++) {
+    n = snprintf(b, sizeof b, "S %d %lx", s, g_bttid[s]); if (write(1, b, n)) {}
+    for (int i = 0; i < g_btn[s]; i++) {                        // innermost first; names from the dynamic symbol tables
+      Dl_info di; const char* nm = (dladdr(g_bt[s][i], &di) && di.dli_sname) ? di.dli_sname : "?";
+      n = snprintf(b, sizeof b, " %s", nm); if (write(1, b, n)) {}
+    }
+    if (write(1, "\n", 1)) {}
+  }
+  _exit(4);
+}
+
 static void on_terminate() {
   const char* name = "unknown"; char what[300] = "";
   if (std::type_info* t = abi::__cxa_current_exception_type()) {
@@ -456,6 +494,17 @@ int main(int argc, char** argv) {
     g_index = 0;
     printf("B 0\n");
     const char* o = run_one(in, atoi(argv[3]), atoi(argv[4]), 120);
+    printf("OUTCOME %s\nSUMMARY execs=1 viol=%ld\n", o, S.viol);
+    return S.viol ? 1 : 0;
+  }
+  if (mode == "hang" && argc >= 6) {
+    std::string in; if (!read_file(argv[2], &in)) return 2;
+    void* warm[4]; backtrace(warm, 4);                          // load the unwinder outside the signal handler
+    signal(SIGALRM, on_alarm_sample);
+    signal(SIGPROF, on_alarm_sample);
+    g_index = 0;
+    printf("B 0\n");
+    const char* o = run_one(in, atoi(argv[3]), atoi(argv[4]), atoi(argv[5]));
     printf("OUTCOME %s\nSUMMARY execs=1 viol=%ld\n", o, S.viol);
     return S.viol ? 1 : 0;
   }
